@@ -178,10 +178,12 @@ def known_class(kind, inp, src, exc):
             return "C02-strmut-missing-operators"
         if exc == "TypeError" and not a.endswith("!") and b.endswith("!") and op in ("add", "sub", "mul", "floordiv", "truediv"):
             return "C02-imm-op-mut-typeerror"
-        if exc == "ValueError" and op in ("add", "mul") and ("Nat!" in (a, b) or "Bool!" in (a, b)):
+        if exc == "ValueError" and op in ("add", "mul", "truediv", "pow") and (a in ("Nat!", "Bool!") or (b in ("Nat!", "Bool!") and op in ("add", "mul"))):
             return "C02-natmut-rewrap"
         if exc == "ValueError" and op == "pow":
             return "C02-int-pow-declared-nat"
+        if exc == "TypeError" and op == "pow" and ("Float" in (a, b) or "Float!" in (a, b)) and re.search(r"^a.*= *\(?-", src):
+            return "C02-pow-complex-result"
     return None
 
 
@@ -200,7 +202,7 @@ def canon_impl(r):
 
 
 def run(ctx, replay_cases=None):
-    nf, nr, ng = (900, 900, 300) if ctx.tier == "thorough" else (160, 140, 40)
+    nf, nr, ng = (900, 900, 300) if ctx.tier == "thorough" else (90, 70, 20)
     ctx.cov["rule"] = ("frag: 2-4 annotated Nat/Int/Bool variables with boundary-pool values (negative, mixed sign, >= 2^31, 2^63, 10^20) and one "
                        "printed operator expression of depth 1-3 built type-directed from the checker's own signature table (1/6 with `**`); "
                        "rows: one operator application per declared signature row over all 10 builtin classes incl. mutable; gen: shared "
@@ -247,6 +249,17 @@ def run(ctx, replay_cases=None):
         for pid, prog, feats in fragrun.gen_programs(ctx.seed + 4242, ng, zero_div=True):
             cases.append(("g" + pid, "(gen %s)" % " ".join(feats), fraggen.to_erg(prog), "gen"))
     res = fragrun.run_programs([(c[0], c[2], None) for c in cases], erg, jobs=10)
+    # a loaded machine makes `erg compile` exceed the per-program timeout now and then: retry those alone, then leave them out
+    late = [i for i, r in enumerate(res) if r["erg_class"] == "timeout"]
+    if late:
+        again = fragrun.run_programs([(cases[i][0], cases[i][2], None) for i in late], erg, jobs=2)
+        for i, r in zip(late, again):
+            res[i] = r
+    inconclusive = [i for i, r in enumerate(res) if r["erg_class"] == "timeout"]
+    if inconclusive:
+        keep = [i for i in range(len(cases)) if i not in set(inconclusive)]
+        cases = [cases[i] for i in keep]
+        res = [res[i] for i in keep]
     rows = [(c[0], c[1], canon_impl(r)) for c, r in zip(cases, res)]
     r_res = {c[0]: r["erg_class"] for c, r in zip(cases, res)}
     known_ids = {e["id"] for e in ctx.known_findings()}
@@ -257,6 +270,7 @@ def run(ctx, replay_cases=None):
     # executed-only streams: python-side verdict
     srcs = {c[0]: c for c in cases}
     py_viol, py_known, verd = [], [], {}
+    mmap = {m[0]: m for m in mrows}
     for (cid, inp, impl), c in zip(rows, cases):
         kind = c[3]
         key = kind + ":" + (impl.split(" ")[0] if not impl.startswith("exc:") else impl)
@@ -264,6 +278,11 @@ def run(ctx, replay_cases=None):
             key = kind + ":checker-crash(counted as rejected)"
         verd[key] = verd.get(key, 0) + 1
         if kind == "frag":
+            # fragment rows the Lean model leaves (float result of `**`): still judged, with the driver's class column
+            m_ = mmap.get(cid)
+            if m_ and m_[1].startswith("out-of-model") and impl.startswith("exc:") and impl[4:] in TYPE_ERR:
+                k = m_[3] if m_[3] not in ("-", "0", "") else None
+                (py_known if k in known_ids else py_viol).append((cid, inp, impl, c[2], k))
             continue
         if impl.startswith("exc:") and impl[4:] in TYPE_ERR:
             k = known_class(kind, inp, c[2], impl[4:])
@@ -276,6 +295,7 @@ def run(ctx, replay_cases=None):
                     "outcome_histogram": dict(sorted(verd.items(), key=lambda kv: -kv[1])[:40])})
     extra = {"axioms": proof["axioms"], "theorems": proof["theorems"], "examples": proof["examples"],
              "gen_tables": {"C02Sig.lean": {"rows": nrows, "sha": sha}, "C26 dump": dsum},
+             "timeouts_retried": len(late), "timeouts_left_out": len(inconclusive),
              "disagreements": len(cmp_.disagree), "spec_violations": len(cmp_.spec_viol), "in_known_class": len(cmp_.known),
              "executed_only_rows": cmp_.out_of_model, "executed_only_violations": len(py_viol), "executed_only_known": len(py_known)}
     for e in ctx.known_findings():
@@ -285,6 +305,8 @@ def run(ctx, replay_cases=None):
             ctx.print_known(e, f"{e.get('summary', '')} [witness still fails as recorded; {len(hits)} case(s) of this class in this run]")
         elif hits:
             ctx.print_known(e, f"{e.get('summary', '')} [{len(hits)} case(s) of this class in this run]")
+    if len(inconclusive) * 5 > len(cases) + len(inconclusive):
+        ctx.violation({"kind": "too-many-timeouts", "left_out": len(inconclusive)}, no_input=True)
     if cmp_.spec_viol:
         v = cmp_.spec_viol[0]
         ctx.violation({"kind": "accepted-program-fails-with-type-error", "case_id": v[0], "input": v[1], "impl": v[2], "model": v[3], "spec": v[4],
